@@ -465,6 +465,14 @@ for h in ["k_stream_writer_zero_channels", "k_stream_writer_nine_channels", "k_s
         contract="FlacStreamWriter::write rejects 0 or more than 8 channels and sample counts not divisible by the channel count without panicking, writes no header and does not consume a frame number",
         stubs=["audio::Frame::fill_from_samples", "stream::FrameHeader::write_subset", "encode::encode_subframe"], timeout=600)
 
+for h in ["k_frontend_new_bytes_2x16", "k_frontend_new_bytes_3x20", "k_frontend_new_bytes_0ch", "k_frontend_new_samples_2ch", "k_frontend_new_samples_0ch", "k_frontend_new_bps33", "k_frontend_new_bps0"]:
+    add("K-" + h[2:], ["C15"], E + h, tier="thorough" if h in ("k_frontend_new_bytes_3x20", "k_frontend_new_bps0") else "quick",
+        bound="channel count and bit depth concrete per instance (0, 2, 3 channels; 0, 16, 20, 24, 33 bits: a symbolic 64-bit divisor does not finish); declared/undeclared and every total below 2^40",
+        functions=["encode::FlacByteWriter::new", "encode::FlacSampleWriter::new", "encode::exact_div"],
+        contract="FlacByteWriter::new / FlacSampleWriter::new never panic (also for 0 channels: no division by zero); bits-per-sample outside 1..=32 => InvalidBitsPerSample; a declared total that is not a whole number of PCM frames => "
+                 "SamplesNotDivisibleByChannels; a declared total of 0 => InvalidTotalBytes/InvalidTotalSamples; otherwise the encoder is constructed with exactly total / (PCM frame size) PCM frames, or None when undeclared",
+        stubs=["encode::Encoder::new (recorder of its `total` argument; its own validation is K-encoder_new_* / not decided)"], timeout=600)
+
 add("K-padding_roundtrip", ["C11", "C12"], M + "k_padding_roundtrip", tier="quick", bound="sizes <= 64 bytes; all stream contents and truncations",
     functions=["metadata::Padding::from_reader", "metadata::Padding::to_writer"],
     contract="PADDING: parse(size) consumes exactly size bytes (fails only on a short stream) and yields Padding{size}; serialising writes exactly size zero bytes; bytes() == size", timeout=300)
